@@ -70,6 +70,36 @@ def cross(run, d, bins, cases):
                                "harness_line": c.line("causal_%d" % c.meta["cont"])})
                 return
     run.cov["cross_container_comparisons"] = n_cmp
+    # history independence: the verdict of a reasoning call on a USED model equals the verdict of the same call issued alone on
+    # a freshly rebuilt identical model ("rebuilding an identical model ... never changes a verdict"; model: run_pure)
+    multi = [c for c in cases if len(c.ops) >= 2]
+    multi = multi[: (3000 if run.thorough else 500)]
+    singles = []; owner = []
+    for ci, c in enumerate(multi):
+        for k, op in enumerate(c.ops):
+            if op[0] in (0, 4, 5, 7):          # reason_all_causes (graph / collection / through the wrapper / on a clone)
+                singles.append(Case("causal", c.prefix, [op], dict(c.meta))); owner.append((ci, k))
+    impl_m, _, _ = d.eval_cases(multi)
+    impl_s, _, _ = d.eval_cases(singles)
+    n_hist = 0
+    for (ci, k), sc, so in zip(owner, singles, impl_s["release"]):
+        c = multi[ci]
+        try:
+            a = c.ints(); top, p = parse_tree(a, 0); calls = parse_calls(a, p)
+            segs = split_out([int(t) for t in impl_m["release"][ci].split()], calls)
+            a1 = sc.ints(); top1, p1 = parse_tree(a1, 0); calls1 = parse_calls(a1, p1)
+            seg1 = split_out([int(t) for t in so.split()], calls1)
+        except ValueError:
+            continue
+        if segs is None or seg1 is None or k >= len(segs): continue
+        n_hist += 1
+        if segs[k]["res"] != seg1[0]["res"]:
+            run.violation({"kind": "property-oracle-failed-on-implementation",
+                           "why": f"call {k} returns {segs[k]['res']} on the used model but {seg1[0]['res']} when issued alone on a freshly rebuilt identical model (1 true, 0 false, -1 error, -999 panic)",
+                           "case": c.to_json(), "call_index": k, "harness_line": c.line("causal_%d" % c.meta.get("cont", 1)),
+                           "fresh_model_line": sc.line("causal_%d" % sc.meta.get("cont", 1)), "outputs": [impl_m["release"][ci], so]})
+            return
+    run.cov["history_independence_comparisons"] = n_hist
     # assumption / inference / observation collections in all five containers (C18's generator and model)
     cases18, dist18 = c18.gen_cases(run)
     cases18 = cases18[: (6000 if run.thorough else 900)]
@@ -84,8 +114,8 @@ def cross(run, d, bins, cases):
 CHECKS = [chk_repeat, chk_recount]
 RULE = ("the same causal items (singletons and nested causaloids) loaded into a slice, Vec, VecDeque, BTreeMap (same iteration order) and HashMap; every CausableReasoning method after "
         "reason_all_causes (ordered containers; each call issued twice = repetition, and once through the wrapping causaloid) or after per-item evaluation (HashMap: order-insensitive "
-        "answers, filters compared as id-sorted sets); causal graphs: reason_all_causes, the same on a CLONE of the graph, and again; every model is built twice (rebuild determinism) and "
-        "the ordered containers are compared pairwise. The assumption / inference / observation collections are compared across the five containers by C18's check, whose cases run "
+        "answers, filters compared as id-sorted sets); causal graphs: reason_all_causes, the same on a CLONE of the graph, and again; every model is built twice (rebuild determinism), the ordered containers are compared pairwise, and every reasoning call of a multi-call history is re-issued "
+        "alone on a freshly rebuilt identical model (same verdict required). The assumption / inference / observation collections are compared across the five containers by C18's check, whose cases run "
         "here as well")
 
 
@@ -93,4 +123,25 @@ def main():
     run = run_property("C12", PROPS, gen_cases, CHECKS, RULE, cross=cross)
 
 
-replay = mk_replay("C12", CHECKS)
+_replay = mk_replay("C12", CHECKS)
+
+
+def replay(path):
+    import json
+    dj = json.load(open(path))
+    if "call_index" not in dj:
+        return _replay(path)
+    # history-independence finding: run the recorded history and the single call on a fresh model, compare the verdicts
+    run = Run("C12"); ensure_driver(); bins = builds(run)
+    c = Case.from_json(dj["case"]); k = dj["call_index"]
+    sc = Case("causal", c.prefix, [c.ops[k]], dict(c.meta))
+    head = "causal_%d" % c.meta.get("cont", 1)
+    rc, out, err = run_lines(bins["release"], [c.line(head), sc.line(head)], line_timeout=15)
+    a = c.ints(); top, p = parse_tree(a, 0); calls = parse_calls(a, p)
+    segs = split_out([int(t) for t in out[0].split()], calls)
+    a1 = sc.ints(); top1, p1 = parse_tree(a1, 0); calls1 = parse_calls(a1, p1)
+    seg1 = split_out([int(t) for t in out[1].split()], calls1)
+    print("used model :", segs[k]["res"], "\nfresh model:", seg1[0]["res"])
+    bad = segs[k]["res"] != seg1[0]["res"]
+    print("REPRODUCED" if bad else "not reproduced")
+    return 1 if bad else 0
